@@ -280,21 +280,38 @@ def recording(rng_script=None):
     class _os:
         urandom = staticmethod(_urandom)
 
-    class GCM(real_gcm):
-        @classmethod
-        def generate_key(cls, bit_length):
+    class GCM:
+        def __init__(self, key):
+            self.inner = real_gcm(key)
+            self.key = bytes(key)
+
+        @staticmethod
+        def generate_key(bit_length):
             return urandom(bit_length // 8)
 
         def encrypt(self, nonce, data, aad):
-            log.calls.append(("gcm_enc", None, bytes(nonce), None))
-            return super().encrypt(nonce, data, aad)
+            log.calls.append(("gcm_enc", self.key, bytes(nonce), bytes(data)))
+            return self.inner.encrypt(nonce, data, aad)
 
         def decrypt(self, nonce, data, aad):
-            log.calls.append(("gcm_dec", None, bytes(nonce), bytes(data)))
-            return super().decrypt(nonce, data, aad)
+            log.calls.append(("gcm_dec", self.key, bytes(nonce), bytes(data)))
+            return self.inner.decrypt(nonce, data, aad)
+
+    class KW:
+        InvalidUnwrap = real_kw.InvalidUnwrap
+
+        @staticmethod
+        def aes_key_wrap(kek, cek, backend=None):
+            log.calls.append(("wrap", bytes(kek), bytes(cek)))
+            return real_kw.aes_key_wrap(kek, cek)
+
+        @staticmethod
+        def aes_key_unwrap(kek, w, backend=None):
+            log.calls.append(("unwrap", bytes(kek), bytes(w)))
+            return real_kw.aes_key_unwrap(kek, w)
 
     try:
-        c.KBKDFHMAC, c.AESGCM, c.os, g.os = KB, GCM, _os, _os
+        c.KBKDFHMAC, c.AESGCM, c.keywrap, c.os, g.os = KB, GCM, KW, _os, _os
         yield log
     finally:
         c.KBKDFHMAC, c.ConcatKDFHash, c.AESGCM, c.keywrap, c.os, g.os = real_kb, real_ck, real_gcm, real_kw, real_os_c, real_os_g
